@@ -7,7 +7,7 @@ primitives are taken to be inverse to each other (varint and key / file-metadata
 field logic of the encoder and the decoder: which fields are written, under which tag, in which order, and what the decoder makes of
 them."""
 import itertools, time
-from z3 import BitVec, BitVecVal, Bool, BoolVal, And, Or, Not, ULT, Extract, ZeroExt, simplify, is_bv
+from z3 import BitVec, BitVecVal, Bool, BoolVal, And, Or, Not, ULT, ULE, UGE, Extract, ZeroExt, simplify, is_bv
 from ..exec import Exec, Enum, Ref, Opaque, Inconclusive, bv
 from ..ob import Result, World, mval
 from .. import lib, lib2
@@ -159,7 +159,7 @@ def o10_8_manifest_codec(mir, tier):
                 res.cases['opts=%s ptrs=%d deleted=%s added=%s' % (''.join(map(str, opt_bits)), len(ptrs), dels, [(simplify(l).as_long(), simplify(f[ff.index('file_number')]).as_long()) for l, f in files])] = 1
                 for label, post, m in ex.check_posts(posts, pc2):
                     res.violations.append({'label': label, 'deleted': dels, 'replay': ['manifest_codec']})
-            ex.run_fn(dec, [Ref('$reader')], e, pc, decoded)
+            ex.run_fn(dec, [tb(buf['tokens'])], e, pc, decoded)      # a slice is a value: advancing a copy leaves the caller's slice alone
         ex.top(enc, [Ref('$m')], {'$state': {}, '$m': m0}, pre, encoded)
         res.absorb(ex)
         for pcx, msg, where in ex.panics:
@@ -174,3 +174,178 @@ def o10_8_confirm(v, out):
     """Native: edits of the shapes above (among them trivial moves at every level) are encoded and decoded by the real codec."""
     if out.get('_rc') != 0: return (False, 'native run failed: %s' % out.get('_stderr', '')[-300:])
     return (out.get('mismatches', '0') != '0', '%s of %s encoded edits decode to something else (first: %s)' % (out.get('mismatches'), out.get('edits'), out.get('first_mismatch')))
+
+
+# =============================================================== batch codec (byte-accurate token stream)
+def o6_3_batch_codec(mir, tier):
+    """Batch encoder (`From<&Batch> for Vec<u8>`, `From<&BatchElement> for Vec<u8>`) and decoder (`Batch::try_from`,
+    `BatchElement::read_element`, `read_length_prefixed_slice`) over a token stream whose tokens carry a byte length: fixed64
+    (8 bytes), varint (1..5 bytes, free), one byte, a byte string (its own free length).  Buffer lengths, `starting_len - buf.len()`
+    and `&buf[n..]` are computed from those lengths (the cut position is found by the solver).  Reference: a batch of 0..3
+    operations (every put / delete pattern, free key / value lengths incl. 0, free starting sequence) decodes to the same starting
+    sequence and the same operations in order; the decoder consumes the whole encoding."""
+    enc = [f for f in mir.fns.values() if f.name == 'from' and f.path.startswith('batch::') and f.trait and f.trait.startswith('From') and f.self_ty and 'Vec' in f.self_ty]
+    encb = [f for f in enc if 'BatchElement' not in (f.trait_full or '')]; ence = [f for f in enc if 'BatchElement' in (f.trait_full or '')]
+    dec = [f for f in mir.fns.values() if f.name == 'try_from' and f.path.startswith('batch::') and f.self_ty == 'Batch']
+    rel = [f for f in mir.fns.values() if f.path.endswith('::read_element') and f.path.startswith('batch::')]
+    rlp = [f for f in mir.fns.values() if f.path.endswith('::read_length_prefixed_slice') and 'utils::io' in f.path]
+    if not (len(encb) == 1 and len(ence) == 1 and len(dec) == 1 and len(rel) == 1 and len(rlp) == 1):
+        raise Inconclusive('batch codec functions not found uniquely (%d %d %d %d %d)' % (len(encb), len(ence), len(dec), len(rel), len(rlp)))
+    encb, ence, dec, rel, rlp = encb[0], ence[0], dec[0], rel[0], rlp[0]
+    NMAX = 2 if tier == 'quick' else 3
+    res = Result('O6.3 batch codec (field logic over a byte-accurate token stream)', [encb.path, ence.path, dec.path, rel.path, rlp.path],
+                 'batches of 0..%d operations, every put / delete pattern, key and value lengths free (0 allowed, < 2^20), starting sequence free; fixed-int / varint primitives by contract' % NMAX)
+    t0 = time.time()
+    bf = mir.struct_fields('Batch'); ef = mir.struct_fields('BatchElement')
+    from ..exec import Delegate
+    for n in range(0, NMAX + 1):
+        for kinds in itertools.product((True, False), repeat=n):
+            S = lib.std_summaries(); P = S['$patterns']
+            s0 = BitVec('starting_sequence', 64)
+            klen = [BitVec('key_len%d' % i, 64) for i in range(n)]; vlen = [BitVec('value_len%d' % i, 64) for i in range(n)]
+            pre = [ULT(x, bv(1 << 20)) for x in klen + vlen]
+            fresh = [0]
+            def P_(se, env, v):
+                v = se.deref(env, v) if isinstance(v, Ref) else v
+                while isinstance(v, Ref): v = se.deref(env, v)
+                return v
+            def tb(tokens):
+                tot = bv(0)
+                for t in tokens: tot = tot + t[2]
+                return {'tokens': list(tokens), 'len': tot}
+            def as_tokens(v):
+                if isinstance(v, dict) and 'tokens' in v: return v['tokens']
+                if isinstance(v, dict) and 'len' in v: return [('bytes', v, v['len'])]
+                if isinstance(v, list): return [('byte', x, bv(1)) for x in v]
+                raise Inconclusive('cannot extend with %r' % (v,))
+            P[r'Vec::with_capacity'] = lambda se, env, pc, c: lib.one(env, tb([]))
+            def extend(se, env, pc, buf, x):
+                b = P_(se, env, buf); se.store(env, buf, tb(b['tokens'] + as_tokens(P_(se, env, x)))); return lib.one(env, ())
+            P[r'<Vec<u8> as Extend<.*>>::extend'] = extend
+            P[r'<u64 as FixedInt>::encode_fixed_vec'] = lambda se, env, pc, v: lib.one(env, tb([('fixed64', v, bv(8))]))
+            def var(se, env, pc, v):
+                fresh[0] += 1; sz = BitVec('varint_bytes%d' % fresh[0], 64)
+                st = dict(env['$state']); st['assume'] = st['assume'] + [And(UGE(sz, bv(1)), ULE(sz, bv(5)))]
+                return [(st['assume'][-1], tb([('var', v, sz)]), st)]
+            P[r'<u32 as VarInt>::encode_var_vec'] = var
+            P[r'Batch::get_approximate_size'] = lambda se, env, pc, b: lib.one(env, bv(0)); P[r'BatchElement::size'] = lambda se, env, pc, b: lib.one(env, bv(0))
+            P[r'BatchElement::get_operation'] = lambda se, env, pc, e: lib.one(env, P_(se, env, e)[ef.index('operation')])
+            P[r'<Operation as PartialEq>::eq'] = lambda se, env, pc, a, b: lib.one(env, _opv(se, env, a) == _opv(se, env, b))
+            P[r'Vec::len'] = lambda se, env, pc, v: lib.one(env, P_(se, env, v)['len'] if isinstance(P_(se, env, v), dict) else bv(len(P_(se, env, v))))
+            P[r'<Vec<u8> as From<&BatchElement>>::from'] = lambda se, env, pc, e: Delegate(ence, [e], lambda r: r)
+            # ---- reader
+            def pop(se, env, r, kind):
+                b = P_(se, env, r)
+                if not (isinstance(b, dict) and 'tokens' in b): raise Inconclusive('not a token reader: %r' % (b,))
+                if not b['tokens'] or b['tokens'][0][0] != kind: return None
+                se.store(env, r, tb(b['tokens'][1:])); return b['tokens'][0]
+            eof = lambda: Enum('Err', ({'kind': 'UnexpectedEof', '__ty': 'io::Error'},))
+            def read_fixed(se, env, pc, r):
+                t = pop(se, env, r, 'fixed64'); return lib.one(env, Enum('Ok', (t[1],)) if t else eof())
+            P[r'<&\[u8\] as FixedIntReader>::read_fixedint'] = read_fixed
+            def read_var(se, env, pc, r):
+                t = pop(se, env, r, 'var'); return lib.one(env, Enum('Ok', (t[1],)) if t else eof())
+            P[r'<&\[u8\] as VarIntReader>::read_varint'] = read_var; P[r'<R as VarIntReader>::read_varint'] = read_var
+            def read_exact(se, env, pc, r, buf):
+                b = P_(se, env, buf)
+                if isinstance(b, list) and len(b) == 1:
+                    t = pop(se, env, r, 'byte')
+                    if t is None: return lib.one(env, eof())
+                    se.store(env, buf, [t[1]]); return lib.one(env, Enum('Ok', ((),)))
+                want = b['len']
+                rd = P_(se, env, r)
+                if not rd['tokens'] or rd['tokens'][0][0] != 'bytes':
+                    # nothing (or something else) left: only a zero-length read succeeds
+                    return [(want == 0, Enum('Ok', ((),)), env['$state']), (want != 0, eof(), env['$state'])]
+                t = rd['tokens'][0]
+                outs = []
+                e_ok = dict(env); se.store(e_ok, r, tb(rd['tokens'][1:])); se.store(e_ok, buf, dict(t[1]))
+                outs.append((t[2] == want, Enum('Ok', ((),)), env['$state'], [(r, tb(rd['tokens'][1:])), (buf, dict(t[1]))]))
+                outs.append((t[2] != want, Enum('Err', ({'kind': 'length mismatch (abstraction limit)', '__ty': 'io::Error'},)), env['$state']))
+                return outs
+            P[r'<&\[u8\] as (?:std::io::)?Read>::read_exact'] = read_exact; P[r'<R as (?:std::io::)?Read>::read_exact'] = read_exact
+            P[r'<&\[u8\] as ReadHelpers>::read_length_prefixed_slice'] = lambda se, env, pc, r: Delegate(rlp, [r], lambda x: x)
+            P[r'std::vec::from_elem'] = lambda se, env, pc, z, k: lib.one(env, {'len': ZeroExt(64 - k.size(), k) if is_bv(k) and k.size() < 64 else k, 'kind': 'zeros', 'off': bv(0)})
+            P[r'<Vec<u8> as DerefMut>::deref_mut'] = lib.ident
+            def op_try_from(se, env, pc, b):
+                st = env['$state']
+                return [(b == 1, Enum('Ok', (bv(1),)), st), (b == 0, Enum('Ok', (bv(0),)), st), (And(b != 0, b != 1), Enum('Err', (Enum('Other', ({'str': 'op'},), 'RainDBError'),)), st)]
+            P[r'<Operation as TryFrom<u8>>::try_from'] = op_try_from
+            P[r'BatchElement::new'] = lambda se, env, pc, o, k, v: lib.one(env, mir.mk_struct('BatchElement', operation=o, user_key=k, value=v, size=bv(0)))
+            P[r'Batch::new'] = lambda se, env, pc: lib.one(env, mir.mk_struct('Batch', starting_seq_number=Enum('None'), operations=[]))
+            def set_seq(se, env, pc, b, s):
+                bv_ = dict(se.deref(env, b)); bv_[bf.index('starting_seq_number')] = Enum('Some', (s,)); se.store(env, b, bv_); return lib.one(env, ())
+            P[r'Batch::set_starting_seq_number'] = set_seq
+            P[r'Batch::add_operation'] = lambda se, env, pc, b, e: (se.store(env, Ref(lib.base_ref(se, env, b).local, lib.base_ref(se, env, b).path + (bf.index('operations'),)), se.deref(env, b)[bf.index('operations')] + [e]), lib.one(env, ()))[1]
+            def cut(se, env, pc, r, rng):
+                b = P_(se, env, r)
+                if not (isinstance(b, dict) and 'tokens' in b): raise Inconclusive('index into %r' % (b,))
+                start = rng[0]; pref = bv(0)
+                for k in range(len(b['tokens']) + 1):
+                    if se.model(pref != start) is None:       # on this path the cut falls exactly after k tokens
+                        return lib.one(env, tb(b['tokens'][k:]))
+                    if k < len(b['tokens']): pref = pref + b['tokens'][k][2]
+                # the decoder continues somewhere else than at the end of the element it has just read
+                prefs = [bv(0)]
+                for t in b['tokens']: prefs.append(prefs[-1] + t[2])
+                m = se.model(And(*[p != start for p in prefs])) or se.model(prefs[0] != start)
+                res.violations.append({'label': 'after decoding one operation the batch decoder does not continue at the first byte behind it', 'ops': n,
+                                       'model': {str(d): str(m[d]) for d in m.decls()} if m is not None else {}, 'replay': ['batch_codec']})
+                return []
+            _vi = P[r'<\[.*\] as Index(?:Mut)?<.*>>::index(?:_mut)?']
+            def index(se, env, pc, r, i, _vi=_vi):
+                b = P_(se, env, r)
+                if isinstance(b, dict) and 'tokens' in b: return cut(se, env, pc, r, i)
+                return _vi(se, env, pc, r, i)
+            P[r'<\[.*\] as Index(?:Mut)?<.*>>::index(?:_mut)?'] = index
+            P[r'<std::ops::Range<u32> as IntoIterator>::into_iter'] = lambda se, env, pc, r: lib.one(env, {'range': (r[0], r[1])})
+            def range_next(se, env, pc, it):
+                v = se.deref(env, it); a, b = v['range']
+                st = env['$state']
+                return [(ULT(a, b), Enum('Some', (a,)), st, [(it, {'range': (a + 1, b)})]), (Not(ULT(a, b)), Enum('None'), st)]
+            P[r'<std::ops::Range<u32> as Iterator>::next'] = range_next
+            P[r'<RainDBError as From<.*>>::from'] = lambda se, env, pc, e: lib.one(env, Enum('IO', (e,), 'RainDBError'))
+            P[r'<Result<.*> as FromResidual<Result<Infallible, .*>>>::from_residual'] = lambda se, env, pc, r: lib.one(env, r)
+            ex = Exec(mir, S, loop_bound=NMAX + 4, opaque_calls_ok=False)
+            ops = [mir.mk_struct('BatchElement', operation=bv(1 if kinds[i] else 0), user_key={'len': klen[i], 'kind': 'key%d' % i, 'off': bv(0)},
+                                 value=Enum('Some', ({'len': vlen[i], 'kind': 'value%d' % i, 'off': bv(0)},)) if kinds[i] else Enum('None'), size=bv(0)) for i in range(n)]
+            batch = mir.mk_struct('Batch', starting_seq_number=Enum('Some', (s0,)), operations=list(ops))
+            def encoded(buf, env, pc, ex=ex, n=n, kinds=kinds, s0=s0):
+                if not (isinstance(buf, dict) and 'tokens' in buf): raise Inconclusive('encoder result %r' % (buf,))
+                e = dict(env); e['$reader'] = tb(buf['tokens'])
+                def decoded(ret, env2, pc2):
+                    posts = [('an encoded batch does not decode', BoolVal(isinstance(ret, Enum) and ret.tag == 'Ok'))]
+                    if isinstance(ret, Enum) and ret.tag == 'Ok':
+                        b = ret.fields[0]; sq = b[bf.index('starting_seq_number')]; got = b[bf.index('operations')]
+                        posts.append(('the starting sequence of a batch does not survive encode + decode', sq.fields[0] == s0 if isinstance(sq, Enum) and sq.tag == 'Some' else BoolVal(False)))
+                        posts.append(('a decoded batch does not hold as many operations as were encoded', BoolVal(len(got) == n)))
+                        for i, g in enumerate(got[:n]):
+                            k = g[ef.index('user_key')]; v = g[ef.index('value')]
+                            same_key = BoolVal(isinstance(k, dict) and k.get('kind') == 'key%d' % i)
+                            same_val = BoolVal((isinstance(v, Enum) and v.tag == 'Some' and isinstance(v.fields[0], dict) and v.fields[0].get('kind') == 'value%d' % i) if kinds[i] else (isinstance(v, Enum) and v.tag == 'None'))
+                            posts.append(('operation %d of a batch does not survive encode + decode (kind, key, value)' % i, And(g[ef.index('operation')] == bv(1 if kinds[i] else 0), same_key, same_val)))
+                    res.cases['%d ops %s -> %s' % (n, ''.join('P' if x else 'D' for x in kinds), getattr(ret, 'tag', '?'))] = 1
+                    for label, post, m in ex.check_posts(posts, pc2):
+                        res.violations.append({'label': label, 'ops': n, 'model': {str(d): str(m[d]) for d in m.decls()}, 'replay': ['batch_codec']})
+                ex.run_fn(dec, [tb(buf['tokens'])], e, pc, decoded)      # a slice is a value: advancing a copy leaves the caller's slice alone
+            ex.top(encb, [Ref('$b')], {'$state': {'assume': []}, '$b': batch}, pre, encoded)
+            res.absorb(ex)
+            for pcx, msg, where in ex.panics:
+                ex.solver.push(); ex.solver.add(*pre); ex.solver.add(*[c for c in pcx if not isinstance(c, bool)]); feas = str(ex.solver.check()) == 'sat'; ex.solver.pop()
+                if feas and 'overflow' not in msg: res.panic_paths += 1; res.violations.append({'label': 'panic path: ' + msg[:80], 'replay': None, 'confirmed_by': {'reproduced': False, 'detail': 'no native scenario'}})
+    res.wall_s = time.time() - t0
+    if res.violations: res.status = 'violation'
+    return res
+
+
+def _opv(se, env, a):
+    v = se.deref(env, a) if isinstance(a, Ref) else a
+    while isinstance(v, Ref): v = se.deref(env, v)
+    if isinstance(v, Enum): return bv({'Delete': 0, 'Put': 1}.get(v.tag, 9))
+    return v
+
+
+def o6_3_confirm(v, out):
+    """Native: batches with puts / deletes, empty keys and values, long values are encoded and decoded by the real codec."""
+    if out.get('_rc') != 0: return (False, 'native run failed: %s' % out.get('_stderr', '')[-300:])
+    return (out.get('mismatches', '0') != '0', '%s of %s encoded batches decode to something else (first: %s)' % (out.get('mismatches'), out.get('batches'), out.get('first_mismatch')))
